@@ -1,8 +1,12 @@
 #!/bin/sh
-# repeats the schedule-exploring quick checks with different seeds on the unchanged tree: any VIOLATION is a false alarm or a new defect
+# repeats quick checks with different seeds on the unchanged tree: any VIOLATION is a false alarm or a new defect
+# usage: soak.sh <from> <to> [properties...]   (default: the schedule-exploring checks)
 cd "$(dirname "$0")/.."
-for seed in $(seq ${1:-2} ${2:-12}); do
-  for p in C06 C07 C12 C13 C19 C20 C08 C09 C11; do
+from=${1:-2}; to=${2:-12}
+[ $# -ge 2 ] && shift 2
+props=${*:-C06 C07 C12 C13 C19 C20 C08 C09 C11}
+for seed in $(seq $from $to); do
+  for p in $props; do
     VERIF_SEED=$seed ./check $p > work/soak-$p-$seed.log 2>&1
     rc=$?
     echo "seed=$seed $p rc=$rc $(grep -c '^VIOLATION' work/soak-$p-$seed.log) violations: $(grep -A1 '^VIOLATION' work/soak-$p-$seed.log | grep '^  ' | head -2 | tr '\n' ' ' | cut -c1-200)"
